@@ -147,7 +147,11 @@ func init() {
 						}
 					}
 					for skip := 0; skip <= n+1; skip++ {
-						for limit := 0; limit <= n+1; limit++ {
+						// (a negative limit asks for that many documents in a single batch: the window is the same)
+						for limit := -2; limit <= n+1; limit++ {
+							if limit < 0 && skip > 1 {
+								continue
+							}
 							cur, err := coll.Find(w.Ctx, f, options.Find().SetSort(spec).SetSkip(int64(skip)).SetLimit(int64(limit)))
 							var got []bson.D
 							if err == nil {
@@ -159,8 +163,8 @@ func init() {
 								lo = len(full)
 							}
 							hi := len(full)
-							if limit > 0 && lo+limit < hi {
-								hi = lo + limit
+							if k := absInt(limit); k > 0 && lo+k < hi {
+								hi = lo + k
 							}
 							want := full[lo:hi]
 							if err != nil || idsOf(got) != idsOf(want) {
@@ -461,4 +465,11 @@ func init() {
 			r.Broken("vacuity: windows=%d ties=%d", windows, ties)
 		}
 	})
+}
+
+func absInt(i int) int {
+	if i < 0 {
+		return -i
+	}
+	return i
 }
